@@ -200,6 +200,11 @@ def region(steps, funcs):
             return "tmp-assign-before-export"
     if any(l.startswith(("declare -i", "local -i", "declare -lx")) or " -i " in l for l in lines):
         return "integer-attribute"
+    # bash 5.2 quirk, not a finding: `declare -g N=v` inside a function that has a local N, while the *global* N is an array, turns
+    # the local into an array and leaves the global alone (with a scalar global it assigns the global, as documented and as brush does)
+    for n in arrays:
+        if re.search(r"declare -g %s\b" % n, fn_text) and re.search(r"(local|declare)( +[-+][^g ]\w*)* +%s\b" % n, fn_text):
+            return "declare-g-with-local-and-array-global(bash-quirk)"
     return None
 
 
